@@ -82,23 +82,45 @@ Definition q255 (w : N) : result N :=
   else let num := (2 ^ 23 + m) * 255 in let sh := 150 - e in Ok (N.min 255 ((2 * num + 2 ^ sh) / 2 ^ (sh + 1))).
 Definition twos32 (z : Z) : N := if (z <? 0)%Z then Z.to_N (z + 4294967296) else Z.to_N z.
 
+(* Values outside float32 (custom int / double writers): a mesh value v is
+     v < 2^32                a float32 word (the only domain the theorems speak about);
+     2^32 <= v < 2^33        the integer (v - 2^32) - 2^31 of the int32 range (float64 holds it exactly);
+     2^64 <= v               the float64 with bit pattern v - 2^64. *)
+Definition int_of_f64 (v : N) : option Z :=
+  let s := v / 2 ^ 63 in let e := (v / 2 ^ 52) mod 2048 in let m := v mod 2 ^ 52 in
+  let sg (x : N) := if s =? 0 then Z.of_N x else (- Z.of_N x)%Z in
+  let inr (z : Z) := if ((-2147483648 <=? z) && (z <=? 2147483647))%Z then Some z else None in
+  if e =? 0 then (if m =? 0 then Some 0%Z else None)
+  else if (e <? 1023) || (1054 <? e) then None
+  else if (2 ^ 52 + m) mod 2 ^ (1075 - e) =? 0 then inr (sg ((2 ^ 52 + m) / 2 ^ (1075 - e))) else None.
+Definition wide_int (w : N) : Z := (Z.of_N (w - 2 ^ 32) - 2147483648)%Z.
+Definition as_int (w : N) : option Z :=
+  if w <? 2 ^ 32 then int_of_f32 w else if w <? 2 ^ 33 then Some (wide_int w)
+  else if 2 ^ 64 <=? w then int_of_f64 (w - 2 ^ 64) else None.
+Definition as_f64 (w : N) : option N :=
+  if w <? 2 ^ 32 then Some (cvF w) else if w <? 2 ^ 33 then Some (cvI (wide_int w))
+  else if 2 ^ 64 <=? w then Some (w - 2 ^ 64) else None.
+
 (* the word a binary property writer stores for value w (builtVector*PropertyWriter.Write) *)
 Definition bword (t : sty) (w : N) : result N :=
   match t with
-  | Float => Ok w
-  | Double => Ok (cvF w)
+  | Float => Ok w                                                          (* float32-exact values only *)
+  | Double => of_opt EUnsupported (as_f64 w)
   | UChar => q255 w
-  | Int => dor z <- of_opt EUnsupported (int_of_f32 w); Ok (twos32 z)     (* uint32(v), integral v only *)
+  | Int => dor z <- of_opt EUnsupported (as_int w); Ok (twos32 z)          (* uint32(v), integral v only *)
   | _ => Err EDeclared                                                     (* panic("unimplemented ...") *)
   end.
 (* the token an ASCII property writer prints *)
 Definition ftok (w : N) : tok := match int_of_f32 w with Some z => TI z (cvF w) | None => TF (cvF w) end.
 Definition itok (z : Z) : tok := TI z (cvI z).
+Definition dtok (w : N) : result tok :=
+  dor f <- of_opt EUnsupported (as_f64 w); Ok (match as_int w with Some z => TI z f | None => TF f end).
 Definition atok (t : sty) (w : N) : result tok :=
   match t with
-  | Float | Double => Ok (ftok w)
+  | Float => Ok (ftok w)
+  | Double => dtok w
   | UChar => dor b <- q255 w; Ok (itok (Z.of_N b))
-  | Int | UInt | Short | UShort => dor z <- of_opt EUnsupported (int_of_f32 w); Ok (itok z)
+  | Int | UInt | Short | UShort => dor z <- of_opt EUnsupported (as_int w); Ok (itok z)
   | Char => Err EDeclared
   end.
 
@@ -178,7 +200,8 @@ Definition write (o : wopts) (f : fmt) (m : wmesh) : result plyfile :=
 (* the float64 polyform stores when it reads back the stored image of value w *)
 Definition val (t : sty) (w : N) : result N :=
   match t with
-  | Float | Double => Ok (cvF w)
+  | Float => Ok (cvF w)
+  | Double => of_opt EUnsupported (as_f64 w)
   | UChar => dor b <- q255 w; div255_byte b
   | _ => Err EUnsupported
   end.
